@@ -289,8 +289,13 @@ namespace detail
 		if(Bits == 0)
 			return Base;
 
-		T const Mask = detail::mask(static_cast<T>(Bits)) << Offset;
-		return (Base & ~Mask) | ((Insert << static_cast<T>(Offset)) & Mask);
+		// Work on the unsigned type: for signed T the mask (1 << Bits) - 1 overflows when Bits is the width minus one,
+		// and Insert << Offset is undefined for negative values and for bits shifted out through the sign bit
+		typedef typename detail::make_unsigned<T>::type UT;
+		UT const Mask = static_cast<UT>(detail::mask(static_cast<UT>(Bits)) << static_cast<UT>(Offset));
+		vec<L, UT, Q> const Kept(vec<L, UT, Q>(Base) & static_cast<UT>(~Mask));
+		vec<L, UT, Q> const Field((vec<L, UT, Q>(Insert) << static_cast<UT>(Offset)) & Mask);
+		return vec<L, T, Q>(Kept | Field);
 	}
 
 #if GLM_COMPILER & GLM_COMPILER_VC
